@@ -179,12 +179,13 @@ def run_till(cfg):
 
 def exc_info(e):
     tb = traceback.extract_tb(e.__traceback__)
-    origin = None
+    origin = stmt = None
     for fr in reversed(tb):
         if "/aquacrop/" in fr.filename:
             origin = "%s:%s" % (os.path.basename(fr.filename), fr.name)
+            stmt = (fr.line or "").strip()[:200]
             break
-    return {"type": type(e).__name__, "msg": str(e)[:300], "origin": origin,
+    return {"type": type(e).__name__, "msg": str(e)[:300], "origin": origin, "stmt": stmt,
             "last": "%s:%d:%s" % (os.path.basename(tb[-1].filename), tb[-1].lineno, tb[-1].name) if tb else None}
 
 
